@@ -23,7 +23,7 @@ LEAN_MODULES = ["MpfVerif.Props.C09"]
 PROPS_FILE = "MpfVerif/Props/C09.lean"
 GEN = []
 MANIFEST = {
-  "text": "Proof on a Lean model of the light priority stack (mpf/devices/light.py), its hardware-target computation with both suppression shortcuts, the fade-out delays, the brightness factor, the colour-correction lookup, default_on_color scaling of Light.on(), the RGBW channel mapping (min_rgb / duck_rgb / white_only), and the fade stepping of LightPlatformDirectFade both as software fade (max_fade_ms = 0) and on hardware that fades by itself (max_fade_ms > 0): for every sequence of color/on/off/remove/clear commands, delay firings and clock advances the stack stays strictly sorted by (priority, key) with unique keys; the logical colour is that of the top entry, interpolated with exact integer arithmetic and never outside its endpoints; a new fading entry starts from the colour of the entries that do not sort above it; removing a key (or all keys) restores exactly the stack without it (off when empty); the last hardware target colour sent always equals the target of the current stack (so the suppression shortcuts never lose an update) and equals the logical colour once all fades and fade-outs are over; on the device as a whole (stack + brightness factor + correction table + channel mapping + fade channels, any configuration, any history of commands, delay firings, clock advances and task resumptions) the latest set_fade command of every hardware channel targets the channel value of the CORRECTED target colour of the current stack although the shortcuts compare uncorrected colours with the remembered last target - whatever coincidences there are between a new colour and the corrected or uncorrected value of an earlier one - and hence at rest the brightness last commanded to every channel is the corrected logical colour; a channel has at most one live stepping task, it belongs to the latest command, and when none is live the last commanded brightness is the latest command's target; the stepping task of LightPlatformDirectFade._fade with any max_fade_ms hands over only pairs of the latest command, within the hardware's maximum fade and on the logical fade line, the last one carrying the target and exactly the remaining time, while set_fade as the code is starts that task only when (target_time - now)/1000.0 exceeds max_fade_ms and otherwise hands the target over at once (so the at-rest clause holds on hardware-fading lights; that the hardware is told to jump - D30 - is outside the property and only counted); the RGBW mapping keeps all four channels in 0..255 and white plus channel reproduces the colour; brightness is monotone, never brightens and maps black to black; and, on a model of PlatformBatchLightSystem (dirty set swapped out by the sender, awaited update callback, re-scheduling of running fades, hardware fades up to max_fade_ms with the target cache as the code has it (a repeated update answers fade 0 - D31, outside the property, only counted), grouping into lists of successive channels bounded by batch size and fade tolerance), for every interleaving of set_fade commands with scheduler iterations, sender computations and callback starts/completions no dirty light is ever lost, every dirty light of a round is handed to the callback exactly once whatever the grouping, the grouping function returns every queued light exactly once in lists of successive channels within the batch size, and at rest the platform has received the target brightness of every light's latest fade. The models are tied to the real Light on the direct (VirtualLight), software-faded (DriverLight on real Drivers), hardware-fading direct (a test light deriving from the real LightPlatformDirectFade with max_fade_ms > 0) and batched (real PlatformBatchLightSystem, with and without hardware fades, batch sizes 1..16, extra lights with their own commands) back ends by a correspondence run on every check, with a model-independent oracle that states what C09 states (logical colour = top entry, interpolated within its endpoints; remove restores, clear turns off; at rest the last commanded brightness of every channel on every back end equals the corrected logical colour); the transient hardware output (pairs on the logical line, start brightness of interrupted fades, exactly-once and sequential lists per round) is compared with the model and counted as observations, not required.",
+  "text": "Proof on a Lean model of the light priority stack (mpf/devices/light.py), its hardware-target computation with both suppression shortcuts, the fade-out delays, the brightness factor, the colour-correction lookup, default_on_color scaling of Light.on(), the RGBW channel mapping (min_rgb / duck_rgb / white_only), and the fade stepping of LightPlatformDirectFade both as software fade (max_fade_ms = 0) and on hardware that fades by itself (max_fade_ms > 0): for every sequence of color/on/off/remove/clear commands, delay firings and clock advances the stack stays strictly sorted by (priority, key) with unique keys; the logical colour is that of the top entry, interpolated with exact integer arithmetic and never outside its endpoints; a new fading entry starts from the colour of the entries that do not sort above it; removing a key (or all keys) restores exactly the stack without it (off when empty); the last hardware target colour sent always equals the target of the current stack (so the suppression shortcuts never lose an update) and equals the logical colour once all fades and fade-outs are over; on the device as a whole (stack + brightness factor + correction table + channel mapping + fade channels, any configuration, any history of commands, delay firings, clock advances and task resumptions) the latest set_fade command of every hardware channel targets the channel value of the CORRECTED target colour of the current stack although the shortcuts compare uncorrected colours with the remembered last target - whatever coincidences there are between a new colour and the corrected or uncorrected value of an earlier one - and hence at rest the brightness last commanded to every channel is the corrected logical colour; a channel has at most one live stepping task, it belongs to the latest command, and when none is live the last commanded brightness is the latest command's target; the stepping task of LightPlatformDirectFade._fade with any max_fade_ms hands over only pairs of the latest command, within the hardware's maximum fade and on the logical fade line, the last one carrying the target and exactly the remaining time, while set_fade as the code is starts that task only when (target_time - now)/1000.0 exceeds max_fade_ms and otherwise hands the target over at once (so the at-rest clause holds on hardware-fading lights; that the hardware is told to jump - D30 - is outside the property and only counted); the RGBW mapping keeps all four channels in 0..255 and white plus channel reproduces the colour; brightness is monotone, never brightens and maps black to black; and, on a model of PlatformBatchLightSystem (dirty set swapped out by the sender, awaited update callback, re-scheduling of running fades, hardware fades up to max_fade_ms with the target cache as the code has it (a repeated update answers fade 0 - D31, outside the property, only counted), grouping into lists of successive channels bounded by batch size and fade tolerance), for every interleaving of set_fade commands with scheduler iterations, sender computations and callback starts/completions no dirty light is ever lost, every dirty light of a round is handed to the callback exactly once whatever the grouping, the grouping function returns every queued light exactly once in lists of successive channels within the batch size, and at rest the platform has received the target brightness of every light's latest fade. The models are tied to the real Light on the direct (VirtualLight), software-faded (DriverLight on real Drivers), hardware-fading direct (a test light deriving from the real LightPlatformDirectFade with max_fade_ms > 0) and batched (real PlatformBatchLightSystem, with and without hardware fades, batch sizes 1..16, extra lights with their own commands) back ends by a correspondence run on every check, with a model-independent oracle that states what C09 states (logical colour = top entry, interpolated within its endpoints; remove restores, clear turns off; a fade-out entry stays in the stack until the end of the LATEST fade-out of its key - the remove_fade_<key> delay is re-armed when a key is faded out, set again and faded out again inside the first window (directed re-fade sequences, observed every tick between the two end times) - and while the fade-out of the top key over a stack at rest runs undisturbed the logical colour is on the line from the removed colour to the one beneath; at rest the last commanded brightness of every channel on every back end equals the corrected logical colour); the transient hardware output (pairs on the logical line, start brightness of interrupted fades, exactly-once and sequential lists per round) is compared with the model and counted as observations, not required.",
   "note": "Trusted: Lean kernel + {propext, Classical.choice, Quot.sound}; the hand-written models Model/Light.lean and Model/BatchLight.lean (validated only by differential runs); float interpolation in the implementation is compared (exact on the 1/8 s grid for the stack, 1e-9 for channel brightness), not proved; the colour-correction profile enters the model as its 3x256 lookup table (the float generator generate_from_parameters is not modelled; whether the configured table is monotone is only observed and counted); the brightness factor is modelled for the quarter values 0.25..1.0; is_successor_of is modelled as 'next channel number' (the test platform's definition); the batch system's poll sleep is abstracted (a round may start whenever something is dirty); the device-level theorems (channel_target_is_corrected_stack_target, corrected_output_at_rest) are about drun/dstep in Lemmas/LightDev.lean, which dispatch exactly as the Lean driver's driverStep does on parsed lines (same DSt.apply / stepTask calls; the string parsing itself is not part of the statement); the generator takes the correction table from a real light of a machine booted with the generated config; FASTLEDChannel's own copy of get_fade_and_brightness and the hardware platforms' serial encodings of (brightness, fade) are not exercised.",
   "technique": "Lean 4 theorems (invariants by induction over all operation sequences) on a hand model + differential correspondence with real Light devices on five real back ends + hardware-output oracle",
   "translated": False,
@@ -39,7 +39,10 @@ RULE = ("a case = a machine variant (update rate 8/4/2 Hz, with or without a col
         "fade finished / just ending / running; the same colour re-issued under another key or priority; a fade to the "
         "colour already shown and a fade whose target equals its start; the same command twice at one instant (one callback "
         "or two) and again after a remove/clear; removal of a key whose colour equals the one beneath; 40% of the cases start with two or three keys removed with overlapping fade-outs "
-        "(inside each other's window, same instant, exactly at a window's end) followed by a lower-priority fade) at gaps of "
+        "(inside each other's window, same instant, exactly at a window's end) followed by a lower-priority fade; 12% start with (and further histories contain) a re-fade block: a key faded out, set "
+        "again inside the fade-out's window (same callback, same instant, 1..window-1 ticks later) and faded out a second (third) "
+        "time before the first fade-out's end - the second one ending later than, with, or before the first - optionally with a "
+        "command of another key between the two ends, sampled every tick between the two ends and after both) at gaps of "
         "0..20 ticks biased to land inside running fades, on fade ends and on fade-out ends, applied "
         "to 7 real lights (RGB/single x direct/software-faded/hardware-fading, plus an RGBW light in one of the three white "
         "styles), and in a second stream to RGB/single lights on a batched test platform (real PlatformBatchLightSystem, slow "
@@ -124,6 +127,52 @@ def gen_overlap(r, ops):
         ops.append([r.choice([0, 1, window, window + 2, window + 6]), "color", list(r.choice(COLORS)), r.choice([0, 4, 8]),
                     r.choice([0, 0, 1]), r.choice(KEYS[:5]), 0])
     return window
+
+
+FADE_OUTS = [1, 2, 3, 4, 5, 8, 12, 16]
+
+
+def blk_refade(r, dt):
+    """a key faded out (F1), set again inside the fade-out's window and faded out a second time (F2) before the first
+    fade-out's end: the `remove_fade_<key>` delay has to be re-armed (delay.reset), the second fade-out entry lives until ITS
+    end (later or earlier than the first one's), and is observed every tick between the two ends and after both; sometimes
+    a third round, a command of another key between the two ends, or the second removal exactly at the first end"""
+    k = r.choice(KEYS[:5])
+    pk = r.choice([1, 2, 3, 3])
+    out = []
+    d = dt
+    if r.random() < 0.8:
+        kb = r.choice([x for x in KEYS[:5] if x != k])
+        out.append([d, "color", list(r.choice(COLORS)), 0, r.choice([0, 0, pk - 1, pk if kb < k else pk - 1]), kb, 0])
+        d = 0
+    ck = list(r.choice([c for c in COLORS if list(c) != (out[-1][2] if out else None)]))
+    out.append([d, "color", ck, r.choice([0, 0, 0, 2]), pk, k, 0])
+    f1 = r.choice([2, 4, 4, 8, 8, 12, 16])
+    out.append([r.choice([0, 1, 3]), "remove", k, f1])
+    left = f1                      # ticks until the pending (first) delay would fire
+    for _ in range(r.choice([1, 1, 1, 2])):
+        g1 = r.choice([0, 0, 1, 1, 2, max(left - 2, 0), max(left - 1, 0), -1])
+        g1 = min(g1, max(left - 1, 0))
+        c2 = ck if r.random() < 0.6 else list(r.choice(COLORS))
+        out.append([g1, "color", c2, r.choice([0, 0, 0, 1, 2]), r.choice([pk, pk, pk, min(pk + 1, 3)]), k, 0])
+        left -= max(g1, 0)
+        g2 = r.choice([0, 1, 1, 2, max(left - 1, 0), max(left - 1, 0), left, -1])
+        g2 = min(g2, left)
+        left -= max(g2, 0)
+        # mostly ending after the first fade-out's end (the stale delay would cut it short), sometimes before it
+        # (durations of the set the other generators use: the float ratio of the code is exact for them on this grid)
+        later = [x for x in FADE_OUTS if x > left] or [16]
+        f2 = r.choice(later + later + [16] + [x for x in FADE_OUTS if x <= left][-2:])
+        out.append([g2, "remove", k, f2])
+        if r.random() < 0.3 and 0 < left < f2:
+            # something else happens between the two ends
+            ko = r.choice([x for x in KEYS[:5] if x != k])
+            gap = r.choice([left, left, left + 1])
+            gap = min(gap, f2 - 1)
+            out.append([gap, "color", list(r.choice(COLORS)), r.choice([0, 0, 2]), r.choice([0, 0, 1]), ko, 0])
+            f2 -= gap
+        left = f2
+    return out, left
 
 
 def on_color(onc, b):
@@ -272,7 +321,12 @@ def gen_case(r, table=None):
     if lead < 0.4:
         pending.append(gen_overlap(r, ops))
         n = r.randint(0, 6)
-    elif active and lead < 0.6:
+    elif lead < 0.52:
+        blk, _ = blk_refade(r, 0)
+        for op in blk:
+            emit(op)
+        n = r.randint(0, 5)
+    elif active and lead < 0.7:
         for op in blk_corrected_chain(r, 0, cim):
             emit(op)
         n = r.randint(0, 8)
@@ -294,7 +348,9 @@ def gen_case(r, table=None):
         if kind < 0.16:
             # coincidences the suppression logic of _schedule_update could confuse
             which = r.random()
-            if active and which < 0.5:
+            if which < 0.2:
+                blk, _ = blk_refade(r, dt)
+            elif active and which < 0.55:
                 blk = blk_corrected_chain(r, dt, cim)
             elif which < 0.8:
                 blk = blk_same_colour(r, dt)
@@ -595,6 +651,28 @@ class Run:
                 self.fail.append(("fade-outside-endpoints", {"light": name, "t": t, "color": col, "from": v0, "to": c}))
             elif t == f["end"] and col != c:
                 self.fail.append(("fade-end-not-target", {"light": name, "t": t, "color": col, "to": c}))
+        # a running fade-out: its entry stays in the stack until ITS end (not the end of an earlier fade-out of the same
+        # key), and - where the key was the top entry over a stack at rest and nothing was commanded since - the logical
+        # colour is on the line from the removed colour to the one beneath (int() truncation of the code: within 1)
+        for gk, g in list(self.ghosts.items()):
+            if t >= g["end"]:
+                del self.ghosts[gk]
+                continue
+            ent = [e for e in light.stack if e.key == gk and e.dest_color is None]
+            if len(ent) != 1 or self.to_tick(ent[0].dest_time) != g["end"]:
+                self.fail.append(("fade-out-entry-not-in-stack-until-its-end",
+                                  {"light": name, "t": t, "key": gk, "fade_out": [g["t0"], g["end"]],
+                                   "stack": self.stack_of(light)}))
+            elif g["clean"] and t > g["t0"]:
+                n, d = t - g["t0"], g["end"] - g["t0"]
+                want = []
+                for i in range(3):
+                    diff = g["to"][i] - g["from"][i]
+                    want.append(g["from"][i] + (abs(diff) * n // d) * (1 if diff >= 0 else -1))
+                if any(abs(col[i] - want[i]) > 1 for i in range(3)):
+                    self.fail.append(("fade-out-colour-not-on-the-line-to-the-colour-beneath",
+                                      {"light": name, "t": t, "key": gk, "fade_out": [g["t0"], g["end"]], "color": col,
+                                       "want": want, "from": g["from"], "to": g["to"]}))
         quiet = t >= self.busy_until
         if quiet:
             # logical colour = the top (priority, key) setting of the reference stack, off when empty
@@ -666,7 +744,10 @@ class Run:
                 self.commanded.append(tuple(c))
                 accepted = not (key in self.ref and p < self.ref[key][0])
                 self.note_coincidence(sub, t, accepted)
+                for g in self.ghosts.values():
+                    g["clean"] = False
                 if accepted:
+                    self.ghosts.pop(key, None)      # setting a key again replaces its fade-out entry
                     self.ref[key] = (p, tuple(c))
                     pk = (p, key)
                     if fade and t - stb + fade > t:
@@ -681,10 +762,25 @@ class Run:
             elif sub[1] == "remove":
                 key, fade = sub[2], sub[3]
                 self.since_prev_color.add("remove")
+                for g in self.ghosts.values():
+                    g["clean"] = False
+                # removing a key that is only a fade-out entry removes that entry at once (a fade-out is not faded out)
+                self.ghosts.pop(key, None)
                 if key in self.ref:
                     was_top = key == self.ref_top()
                     gone = self.ref[key][1]
+                    at_rest = t >= self.busy_until
                     del self.ref[key]
+                    if fade:
+                        # the fade-out entry lives until t + fade, whatever earlier fade-outs of this key were running; if
+                        # the key was the top entry and nothing was fading, the logical colour is the line gone -> beneath
+                        if self.fo_window.get(key, -1) > t:
+                            self.coincide("second_fade_out_of_a_key_inside_its_first_fade_out_window" +
+                                          ("_ending_later" if t + fade > self.fo_window[key] else "_ending_earlier_or_with_it"))
+                        self.fo_window[key] = max(self.fo_window.get(key, -1), t + fade)
+                        beneath = self.ref[self.ref_top()][1] if self.ref else (0, 0, 0)
+                        self.ghosts[key] = {"t0": t, "end": t + fade, "from": gone, "to": beneath,
+                                            "clean": was_top and at_rest and kind != "probe"}
                     if was_top and self.ref and self.ref[self.ref_top()][1] == gone and kind != "probe":
                         self.coincide("remove_of_top_key_whose_colour_equals_the_one_beneath")
                     if fade:
@@ -694,6 +790,7 @@ class Run:
                         self.top_fade = None
             elif sub[1] == "clear":
                 self.since_prev_color.add("clear")
+                self.ghosts = {}
                 self.ref = {}
                 self.top_fade = None
             for name, nchan, lk in self.lights:
@@ -806,6 +903,8 @@ class Run:
         self.commanded = [(0, 0, 0)]
         self.busy_until = -1
         self.ghost_until = -1
+        self.ghosts = {}          # key -> the running fade-out of that key (oracle bookkeeping)
+        self.fo_window = {}       # key -> latest end of any fade-out ever started for that key
         self.top_fade = None
         self.last_power = {}
         self.last_fade = {}
@@ -1119,6 +1218,16 @@ CORPUS = [
     # fade-out above a shorter fade below (the `start < lower_dest < dest` branch)
     {"hz": 8, "profile": True, "tail": 24, "ops": [[0, "color", [255, 0, 0], 0, 2, "b", 0], [1, "color", [0, 255, 0], 4, 1, "a", 0],
                                                   [1, "remove", "b", 8]]},
+    # a key faded out (16 ticks), set again 4 ticks later, faded out again 4 ticks after that for 32 ticks: the removal delay
+    # is re-armed, the second fade-out runs to tick 40 and not to tick 16 (the seeded change fade-out-timer-not-rearmed)
+    {"hz": 8, "profile": False, "tail": 40, "rgbw": "min_rgb",
+     "ops": [[0, "color", [0, 0, 255], 0, 1, "a", 0], [0, "color", [255, 0, 0], 0, 3, "d", 0], [8, "remove", "d", 16],
+             [4, "color", [255, 0, 0], 0, 3, "d", 0], [4, "remove", "d", 32]]},
+    # ... the second fade-out ends before the first one would have; then a third round in the same callback
+    {"hz": 4, "profile": False, "tail": 32, "rgbw": "duck_rgb",
+     "ops": [[0, "color", [100, 100, 100], 0, 0, "", 0], [0, "color", [50, 200, 50], 0, 2, "b", 0], [1, "remove", "b", 12],
+             [2, "color", [230, 25, 7], 0, 2, "b", 0], [1, "remove", "b", 2], [1, "color", [0, 255, 0], 0, 2, "b", 0],
+             [-1, "remove", "b", 16], [9, "color", [1, 2, 3], 0, 0, "c", 0]]},
     # same priority, different keys; remove the upper one; clear
     {"hz": 2, "profile": False, "tail": 20, "ops": [[0, "color", [1, 2, 3], 0, 1, "a", 0], [0, "color", [230, 25, 7], 5, 1, "b", 0],
                                                    [2, "remove", "b", 3], [1, "probe", [0, 255, 0]], [9, "clear"]]},
